@@ -21,6 +21,19 @@ CHECKS = {
              "object identity, the reading of C13 (bs>=1, converse only for ms<=bs). Beyond the bounds evidence is "
              "sampled traces.",
     ),
+    "C03": dict(
+        engine="tlc-row",
+        technique="TLC model checking of Row.tla (every valid matching on a label grid, both strands) + TLC batch "
+                  "trace validation of the real AlignmentResultRow.cigarString (TLC parses and decodes the text)",
+        text="TLC exhausts the implementation-shaped HitEnum encoder (walk + run-length aggregation) on every valid "
+             "matching of a 7x7 (quick) / 8x8 (thorough) label grid in both orientations against the C03 clauses; "
+             "TLC exports the same matchings, the real cigarString encodes them (and random matchings of up to 300 "
+             "pairs), and TLC parses each produced string character by character, replays it from the first pair "
+             "and compares with the pairs.",
+        design_ref="DESIGN.md section 4 (C03), section 10",
+        note="Trusted: TLC, the driver that builds AlignmentResultRow objects from label pairs. End-to-end records "
+             "are additionally judged by the pipeline checks (C01/C02) with the same Trace_Row clauses.",
+    ),
 }
 
 NOT_YET = "check not built yet in this round; planned per DESIGN.md section 4 (no technique switch)"
@@ -59,6 +72,8 @@ def main():
         "engines": [
             {"name": "tlc-segmenter", "path": "spec/Segmenter.tla", "serves_properties": ["C13"],
              "kind_free_text": "TLA+ spec (MC_/Export_/Trace_ configs) checked with TLC; harness/props/c13.py"},
+            {"name": "tlc-row", "path": "spec/Row.tla", "serves_properties": ["C03"],
+             "kind_free_text": "TLA+ spec (MC_/Export_/Trace_ configs) checked with TLC; harness/props/c03.py"},
         ],
         "checks": checks,
         "notes": "One implementation-shaped TLA+ specification (spec/), used for (A) exhaustive model checking, "
